@@ -1,6 +1,66 @@
+(* C12 -- Command line: every argv is parsed safely and means what the help text says.
+   Only statements; every proof is `exact <lemma>` into C12_Proofs.v / C12_Meaning.v / C12_Select.v. *)
 From Coq Require Import NArith ZArith Bool List.
-From CppUVerif Require Import gen.Gen_C12 lib.Str C12_Model C12_Proofs.
+From CppUVerif Require Import gen.Gen_C12 lib.Str C12_Model C12_Proofs C12_Meaning C12_Select C12_Examples.
 Import ListNotations.
-Theorem C12_stub : valid 0 [] = true.
-Proof. exact stub. Qed.
-Print Assumptions C12_stub.
+Local Open Scope N_scope.
+
+(* the loop over argv is a structural recursion over the remaining arguments (every iteration consumes one or two of them, the
+   index only moves forward): no fuel, no out-of-fuel result.  Every rule of the dispatch chain re-read from the source has an
+   action in the model (no "unknown rule" result), so every vector is rejected or gives a configuration *)
+Theorem C12_total : forall tm argv, (exists h, parse tm argv = Reject h) \/ (exists c, parse tm argv = Accept c).
+Proof. exact parse_total. Qed.
+Print Assumptions C12_total.
+
+(* refinement to the documented grammar: every spelling (attached / separated, any order and multiplicity) of every sequence
+   of documented options whose values have the claimed shapes (opt_ok) gives exactly the documented configuration;
+   -h anywhere gives the help screen *)
+Theorem C12_meaning : forall tm prog opts argv,
+  forallb opt_ok opts = true -> In argv (render opts) -> parse tm (prog :: argv) = sem tm opts.
+Proof. exact meaning. Qed.
+Print Assumptions C12_meaning.
+
+(* a rejected vector: help (after -h) or usage is printed, nothing else, and runAllTests is not called *)
+Theorem C12_reject_no_run : forall tm argv h, parse tm argv = Reject h ->
+  run tm argv = ORejected h 0 (if h then PHelp else PUsage) /\ ~ In ERunAllTests (run_all_tests_main (parse tm argv)).
+Proof. exact reject_no_run_parse. Qed.
+Print Assumptions C12_reject_no_run.
+
+(* one filter of each kind accepts exactly: substring / equal / not substring / not equal (textbook `contains` of lib/Str.v) *)
+Theorem C12_filter_kinds : forall k v text,
+  doc_filter_accepts (mkf v (fk_strict k) (fk_invert k)) text = true <->
+  match k with
+  | FContains => exists p q, text = p ++ v ++ q
+  | FStrict => text = v
+  | FExclude => ~ exists p q, text = p ++ v ++ q
+  | FExcludeStrict => text <> v
+  end.
+Proof. exact filter_kind_meaning. Qed.
+Print Assumptions C12_filter_kinds.
+
+(* TestFilter::match / UtestShell::shouldRun over the parsed lists *)
+Theorem C12_selected_lists : forall c g n,
+  selected c (g, n) = true <->
+  (c_gf c = [] \/ exists f, In f (c_gf c) /\ doc_filter_accepts f g = true) /\
+  (c_nf c = [] \/ exists f, In f (c_nf c) /\ doc_filter_accepts f n = true).
+Proof. exact selected_meaning. Qed.
+Print Assumptions C12_selected_lists.
+
+(* a vector that is ONE documented test-selection option (-g -sg -xg -xsg -n -sn -xn -xsn -t -st -xt -xst, "TEST(g, n)",
+   "IGNORE_TEST(g, n)") in any spelling is accepted and selects exactly the tests its sentence in help() names
+   (doc_says: the sentence as re-read from the source into gen/Gen_C12.v c12_help) *)
+Theorem C12_filters_select : forall tm prog o f argv,
+  opt_ok o = true -> doc_says o = Some f -> In argv (render [o]) ->
+  exists c, parse tm (prog :: argv) = Accept c /\ forall t, selected c t = f t.
+Proof. exact filters_select. Qed.
+Print Assumptions C12_filters_select.
+
+(* the sentences help() had for -xt / -xst before the text was repaired do not describe what the two inverted filters select *)
+Theorem C12_xt_help_old_refuted : ~ xt_help_old_stmt.
+Proof. exact xt_help_old_refuted. Qed.
+Print Assumptions C12_xt_help_old_refuted.
+
+(* the executable oracle used on the implementation's observations accepts every observation of the model *)
+Theorem C12_run_meets_spec : forall tm argv opts, valid tm argv = true -> spec tm argv opts (run tm argv) = true.
+Proof. exact run_meets_spec. Qed.
+Print Assumptions C12_run_meets_spec.
